@@ -17,6 +17,7 @@ typedef struct {
                         // 0 = every limb is input. Stored as (number of input limbs + 1)
   size_t bytes, align;
   size_t live_bytes1;   // raw INOUT buffers of in-place calls: (number of input bytes + 1); the rest is output-only. 0 = all input
+  int word4;         // array of 32-bit words: 4-byte alignment is all the C types promise (half of the calls add 4 to the misalignment)
   int is_zvec;       // int64 limb vector with stride padding
   uint64_t n, size, sl;
 } bufspec_t;
@@ -111,6 +112,8 @@ typedef struct {
 #define MON_VALGRIND 4u  // mark OUT/SCRATCH undefined before, check OUT defined after (memcheck client requests)
 #define MON_RERUN 16u    // calls without INOUT / overwritten-source buffers are made a second time on the same buffers: the outputs (now
                          // pre-filled with the correct result, scratch pre-filled with what the first call left) must not change
+#define MON_RECONTENT 32u  // after the call, other data is written into the SAME input buffers and the call repeated: the result must be what a
+                           // fresh call on that data returns (memos keyed on addresses, stale copies of an operand)
 #define MON_CAPTURE 8u   // keep copies of the inputs (before the call) and of the outputs (after); caller frees res->cap_*
 // Executes catalogue entry `o` once. All parameters (shape, strides, operand values) derive from `seed` only,
 // never from `prefill` (pattern written to OUT and SCRATCH buffers before the call) or `mis` (byte
